@@ -3,6 +3,7 @@ package validate
 import (
 	"cmp"
 	"math"
+	"math/big"
 	"net/netip"
 	"net/url"
 	"regexp"
@@ -110,6 +111,13 @@ func MultipleOf(value, divisor any) bool {
 	if a, ok := toNum(value); ok && a.kind != numFloat {
 		if b, ok := toNum(divisor); ok && b.kind != numFloat {
 			return multipleOfInts(a, b)
+		}
+	}
+	if isBig(value) || isBig(divisor) {
+		if x, ok := toBig(value); ok {
+			if y, ok := toBig(divisor); ok {
+				return y.Sign() != 0 && new(big.Int).Rem(x, y).Sign() == 0
+			}
 		}
 	}
 	val, div, ok := toFloat64Pair(value, divisor)
@@ -634,6 +642,11 @@ func compareNumeric(value, limit any) (int, bool) {
 	a, okA := toNum(value)
 	b, okB := toNum(limit)
 	if !okA || !okB {
+		if isBig(value) || isBig(limit) {
+			if c, ok, done := cmpBig(value, limit); done {
+				return c, ok
+			}
+		}
 		x, y, ok := toFloat64Pair(value, limit)
 		if !ok {
 			return 0, false
@@ -651,6 +664,68 @@ func compareNumeric(value, limit any) (int, bool) {
 	default:
 		return cmpInts(a, b), true
 	}
+}
+
+// isBig reports whether v is a big integer (*big.Int or big.Int).
+func isBig(v any) bool {
+	switch v.(type) {
+	case *big.Int, big.Int:
+		return true
+	}
+	return false
+}
+
+// toBig returns the exact value of a big integer or of a built-in integer.
+func toBig(v any) (*big.Int, bool) {
+	switch x := v.(type) {
+	case *big.Int:
+		return x, x != nil
+	case big.Int:
+		return &x, true
+	}
+	if n, ok := toNum(v); ok {
+		switch n.kind {
+		case numInt:
+			return big.NewInt(n.i), true
+		case numUint:
+			return new(big.Int).SetUint64(n.u), true
+		}
+	}
+	return nil, false
+}
+
+// cmpBig orders two values of which at least one is a big integer, exactly:
+// integers by big.Int.Cmp, a big integer against a float64 through big.Float
+// (whose Cmp is exact). done is false when an operand is neither (complex).
+func cmpBig(a, b any) (c int, ok, done bool) {
+	x, okX := toBig(a)
+	y, okY := toBig(b)
+	if okX && okY {
+		return x.Cmp(y), true, true
+	}
+	bigVsFloat := func(n *big.Int, v any) (int, bool, bool) {
+		m, isNum := toNum(v)
+		if !isNum || m.kind != numFloat {
+			return 0, false, false
+		}
+		switch {
+		case math.IsNaN(m.f):
+			return 0, false, true
+		case math.IsInf(m.f, 1):
+			return -1, true, true
+		case math.IsInf(m.f, -1):
+			return 1, true, true
+		}
+		return new(big.Float).SetInt(n).Cmp(new(big.Float).SetFloat64(m.f)), true, true
+	}
+	if okX {
+		return bigVsFloat(x, b)
+	}
+	if okY {
+		c, ok, done := bigVsFloat(y, a)
+		return -c, ok, done
+	}
+	return 0, false, false
 }
 
 func cmpFloats(x, y float64) (int, bool) {
